@@ -40,6 +40,10 @@ pub struct Scenario {
 }
 
 fn gen_part(allow_colon: bool) -> String {
+    if t::chance(1, 12) {
+        // a long secret (longer than 255 characters)
+        return t::string(b"abcdefgh0123456789", 256, 300);
+    }
     match t::weighted(&[5, 1, 2, 1]) {
         0 => t::string(b"abcXYZ019", 1, 8),
         1 => String::new(),
@@ -85,7 +89,18 @@ pub fn generate(_cfg: &RunCfg, _out: &mut Outcome) -> Scenario {
                 ("mixed-pair", Some(format!("Basic {}", STANDARD.encode(format!("{u2}:{p2}"))).into_bytes()))
             }
             2 => {
-                let v = match t::draw(6) {
+                let v = match t::draw(10) {
+                    // extensions and truncations by lengths around the powers of two (length arithmetic in a narrow integer)
+                    6 => format!("{good}{}", "x".repeat(t::pick(&[2usize, 255, 256, 257, 512]))),
+                    7 => format!("{u}{}:{p}", "y".repeat(t::pick(&[255usize, 256, 257, 512]))),
+                    8 => {
+                        let keep = p.chars().count().saturating_sub(t::pick(&[256usize, 255, 1, 2])).max(0);
+                        format!("{u}:{}", p.chars().take(keep).collect::<String>())
+                    }
+                    9 => {
+                        let keep = u.chars().count().saturating_sub(t::pick(&[256usize, 1])).max(0);
+                        format!("{}:{p}", u.chars().take(keep).collect::<String>())
+                    }
                     0 => format!("{good}x"),
                     1 => {
                         let mut g = good.clone();
@@ -120,6 +135,8 @@ pub fn generate(_cfg: &RunCfg, _out: &mut Outcome) -> Scenario {
             }
             _ => ("missing", None),
         };
+        // keep the request head inside the supported subset (C02: heads below the 1 KiB buffer)
+        let (kind, auth) = if auth.as_ref().map(|a| a.len() > 880).unwrap_or(false) { ("missing", None) } else { (kind, auth) };
         reqs.push(Req { authorization: auth, kind: kind.to_string() });
     }
     Scenario { pairs, single, placement: t::draw(3) as u8, reqs }
@@ -281,6 +298,11 @@ fn execute(sc: &Scenario, out: &mut Outcome) {
                 return;
             }
             (false, false) => {
+                // a head beyond the 1 KiB buffer is refused by the request parser before any fang runs (C02: outside the supported subset)
+                let head_len = 33 + r.authorization.as_ref().map(|a| a.len() + 17).unwrap_or(0) + 2;
+                if head_len >= 1024 && resp.status >= 400 {
+                    continue;
+                }
                 if resp.status != 401 {
                     out.violate("others-refused", format!("{}/status-{}", r.kind, resp.status), format!("{desc}: refused with {} instead of 401", resp.status));
                     return;
